@@ -15,7 +15,7 @@ RULE = ("models covering every member type (constitutive / unimolecular / bimole
 ASSUMPTIONS = ["shallow copy.copy is not covered (the property speaks of pickles and deep copies)", "observation equality is exact (same code, same seed)"]
 RUN_OPTS = {"batch_size": 4, "timeout_per_case": 120.0}
 MINIMA = {"*": {"model_copies_compared": 150, "independence_checks": 100, "lineage_model_copies": 20, "result_objects_pickled": 100,
-                "lineages_pickled": 5, "min_member_type_count": 10, "edit_equivalence_checks": 100, "partial_lineages_copied": 20}}
+                "lineages_pickled": 5, "min_member_type_count": 10, "edit_equivalence_checks": 100, "partial_lineages_copied": 20, "queues_copied": 200}}
 
 MEMBERS = ["ConstitutivePropensity", "UnimolecularPropensity", "BimolecularPropensity", "MassActionPropensity", "PositiveHillPropensity",
            "NegativeHillPropensity", "PositiveProportionalHillPropensity", "NegativeProportionalHillPropensity", "GeneralPropensity",
@@ -382,6 +382,39 @@ def run_results(case):
                     q1.py_advance_time(); q2.py_advance_time()
             except Exception as e:
                 bad("result-data-lost:" + name, "%s: delay queue unusable after pickling: %r" % (name, e))
+    # delay queues on their own: random fill (also the last slot of the horizon, where everything at or beyond the horizon is
+    # collected), some advances, then pickle / deepcopy; the restored queue must deliver exactly what the original delivers
+    import copy as _copy0
+    import random as _random0
+    rq = _random0.Random(case["seed"] + 99)
+    for _ in range(12):
+        R_, cols_ = rq.randint(1, 2), rq.randint(2, 5)
+        dtq = 2.0 ** rq.randint(-3, 0)
+        q0 = ArrayDelayQueue.setup_queue(R_, cols_, dtq)
+        tnow = 0.0
+        for _op in range(rq.randint(1, 10)):
+            if rq.random() < 0.7:
+                when = rq.choice([tnow + dtq * rq.randint(1, cols_), tnow + dtq * (cols_ + rq.randint(0, 3)), tnow + dtq * cols_, tnow + 0.3 * dtq])
+                q0.py_add_reaction(when, rq.randrange(R_), float(rq.randint(1, 9)))
+            else:
+                q0.py_advance_time()
+                tnow += dtq
+        for how in ("pickle", "deepcopy"):
+            C["queues_copied"] += 1
+            try:
+                q1 = pickle.loads(pickle.dumps(q0, protocol=proto)) if how == "pickle" else _copy0.deepcopy(q0)
+            except Exception as e:
+                bad("cannot-be-pickled:ArrayDelayQueue", "ArrayDelayQueue (%s) raised %r" % (how, e))
+                continue
+            qa, qb = q0.py_copy(), q1
+            a_, b_ = np.zeros(R_), np.zeros(R_)
+            for k_ in range(cols_ + 1):
+                qa.py_get_next_reactions(a_); qb.py_get_next_reactions(b_)
+                if qa.py_get_next_queue_time() != qb.py_get_next_queue_time() or not np.array_equal(a_, b_):
+                    bad("result-data-lost:ArrayDelayQueue", "queue (%d reactions, %d slots, dt %g) after %s: slot %d at time %r delivers %r, the original %r at time %r" % (
+                        R_, cols_, dtq, how, k_, qb.py_get_next_queue_time(), list(b_), list(a_), qa.py_get_next_queue_time()))
+                    break
+                qa.py_advance_time(); qb.py_advance_time()
     # cell states
     st = np.array([3.0, 1.0, 4.0, 1.0, 5.0][: len(M.get_species_list())] + [0.0] * max(0, len(M.get_species_list()) - 5))
     v = VolumeCellState()
